@@ -1,5 +1,6 @@
 import TlxVerif.Proofs.C11Sem
 import TlxVerif.Proofs.C11BarM
+import TlxVerif.Proofs.C11BarS
 /-!
 # C11 — Semaphore conserves tokens and strands no waiter; both barriers release together
 
@@ -289,5 +290,168 @@ example : (BarM.runChoices (BarM.init 2 2) barMChoices).map
     (fun s => (s.actions, s.step, s.thr.map (fun th => (th.arrived, th.left)), s.thr.all (fun th => th.pc == .finished)))
     = some (2, 0, [(0, 0), (2, 2), (2, 2)], true) := by decide
 
+
+/-! ## ThreadBarrierSpin -/
+
+open BarS in
+/-- **Spin barrier: released together, action in between.** In every reachable state, for all barrier threads
+    `t`, `u`: `left t ≤ step ≤ actions ≤ arrived u` and `actions ≤ step + 1`.  A thread has completed its (g+1)-th
+    `wait()` only if `step_` was bumped g+1 times, which happened only after the action had run g+1 times, which
+    happened only after every thread had done its (g+1)-th `fetch_add`. -/
+theorem barS_release_together {n gens : Nat} {y : Bool} (hn : 1 ≤ n) {s : BarS.State} (h : BarS.Reachable n gens y s)
+    {t u : Nat} (ht : isBar s t) (hu : isBar s u) :
+    (getT s.thr t).left ≤ s.step ∧ s.step ≤ s.actions ∧ s.actions ≤ s.step + 1 ∧ s.actions ≤ (getT s.thr u).arrived := by
+  have hi := reachable_inv hn h
+  have hb := actions_bounds hi
+  exact ⟨(hi.bnd t ht).2.2, hb.1, hb.2.1, hb.2.2 u hu⟩
+
+open BarS in
+/-- **Spin barrier: the releaser is the last arriver.** The thread whose `fetch_add` returns `n - 1` (and which
+    therefore goes on to reset the counter, run the action and bump the generation) performs that `fetch_add`
+    when all other threads have already arrived in the current generation. -/
+theorem barS_releaser_is_last_arriver {n gens : Nat} {y : Bool} (hn : 1 ≤ n) {s : BarS.State}
+    (h : BarS.Reachable n gens y s) {t c : Nat} {o} (hs : BarS.step s t c = some o) (ht : isBar s t)
+    (hpost : (getT o.st.thr t).pc = .storeWaiting) :
+    (∃ ts, (getT s.thr t).pc = .fetchAdd ts) ∧ s.waiting + 1 = s.n ∧
+    ∀ u, isBar s u → u ≠ t → (getT s.thr u).arrived = s.step + 1 := by
+  have hi := reachable_inv hn h
+  have hi' := inv_step hs hi
+  have hfr := frame_step hs
+  have ht' : isBar o.st t := by unfold isBar at ht ⊢; rw [hfr.1]; exact ht
+  have hall := hi'.relAll t ht' (by simp [hpost])
+  have hbnd := hi.bnd
+  have hnpos := hi.npos
+  bars_step_cases hs
+  all_goals (
+    have hlt := lt_of_getElem? ‹s.thr[t]? = some _›
+    have hth := getT_of_getElem? ‹s.thr[t]? = some _›
+    simp only [upd_thr, getT_modify] at hpost)
+  all_goals (first
+    | (simp [hlt] at hpost; done)
+    | skip)
+  all_goals (first | (simp [hlt, nextCall] at hpost; split at hpost <;> simp at hpost; done) | skip)
+  -- remaining: the completing fetch_add
+  all_goals (
+    refine ⟨⟨_, by rw [hth]; assumption⟩, by omega, ?_⟩
+    intro u hu hut
+    have hu' : isBar _ u := hu
+    have := hall u hu'
+    simp only [upd_thr, getT_modify, upd_step] at this
+    have hut' : ¬ t = u := fun h => hut h.symm
+    simpa [hut'] using this)
+
+open BarS in
+/-- **Spin barrier: the action runs once per generation, by the releaser, before anyone is released.**
+    A transition changes `actions` only by +1, only as the `waiting_.store(0); lambda()` step of the releaser `t`,
+    taken when every thread has arrived in the current generation (`arrived = step + 1`) and nobody has left it
+    (`left ≤ step`); `step_` is bumped — releasing the spinners — only afterwards (`actions = step + 1`). -/
+theorem barS_action_by_releaser {n gens : Nat} {y : Bool} (hn : 1 ≤ n) {s : BarS.State}
+    (h : BarS.Reachable n gens y s) {t c : Nat} {o} (hs : BarS.step s t c = some o) :
+    o.st.actions = s.actions ∨
+    (o.st.actions = s.actions + 1 ∧ s.actions = s.step ∧ o.st.step = s.step ∧ isBar s t ∧
+      (getT s.thr t).pc = .storeWaiting ∧
+      ∀ u, isBar s u → (getT s.thr u).arrived = s.step + 1 ∧ (getT s.thr u).left ≤ s.step) := by
+  have hi := reachable_inv hn h
+  bars_step_cases hs
+  all_goals (first | (left; simp; done) | skip)
+  all_goals (
+    have hlt := lt_of_getElem? ‹s.thr[t]? = some _›
+    have hth := getT_of_getElem? ‹s.thr[t]? = some _›
+    right
+    have hb : isBar s t := isBar_of_pc hi hlt (by simp [*])
+    have hpcT := (congrArg Thread.pc hth).trans ‹_ = Pc.storeWaiting›
+    have hpt := hi.pcs t hb
+    simp [pcOk, hpcT] at hpt
+    have hall := hi.relAll t hb (by simp [hpcT])
+    refine ⟨by simp, hpt.2.2.2.2, by simp, hb, hpcT, ?_⟩
+    intro u hu
+    exact ⟨hall u hu, (hi.bnd u hu).2.2⟩)
+
+open BarS in
+/-- **Spin barrier: no deadlock, reusable for any number of generations** (under the fairness assumption built
+    into the model: a spinning thread that has seen an unchanged `step_` is suspended until `step_` changes).
+    If no thread can take a step, every thread has finished. -/
+theorem barS_no_deadlock {n gens : Nat} {y : Bool} (hn : 1 ≤ n) {s : BarS.State} (h : BarS.Reachable n gens y s)
+    (hrest : ∀ t, BarS.enabled s t = false) : ∀ t, t < s.thr.length → (getT s.thr t).pc = .finished := by
+  have hi := reachable_inv hn h
+  have hlen := hi.len
+  have hmain := hi.main
+  have hr0 := hrest 0
+  unfold BarS.enabled at hr0
+  rw [pcOf_eq] at hr0
+  have hsp : s.spawned = s.n := by
+    unfold mainOk at hmain
+    cases hp : (getT s.thr 0).pc <;> simp [hp] at hmain hr0 <;> omega
+  -- a barrier thread is finished or spins on an unchanged step_
+  have hbar : ∀ u, isBar s u → (getT s.thr u).pc = .finished ∨
+      ((getT s.thr u).pc = .spin s.step true ∧ (getT s.thr u).left = s.step ∧ (getT s.thr u).arrived = s.step + 1) := by
+    intro u hu
+    have hr := hrest u
+    have hp := hi.pcs u hu
+    unfold BarS.enabled at hr
+    rw [pcOf_eq] at hr
+    unfold pcOk at hp
+    cases hpc : (getT s.thr u).pc <;> simp [hpc] at hp hr ⊢
+    · have := hu.2; omega
+    · refine ⟨⟨hr.2.symm, hr.1⟩, ?_, ?_⟩ <;> omega
+  -- nobody is the releaser (it would be enabled)
+  have hno : ∀ x, isBar s x → rel (getT s.thr x).pc = false := by
+    intro x hx
+    rcases hbar x hx with hf | ⟨hs, _⟩ <;> simp [*]
+  have hnr := hi.noRel hno
+  have hnone : ∀ u, isBar s u → (getT s.thr u).pc = .finished := by
+    intro u hu
+    rcases hbar u hu with hfin | ⟨hsp', hl, ha⟩
+    · exact hfin
+    · exfalso
+      have hpu := hi.pcs u hu
+      simp [pcOk, hsp'] at hpu
+      have hall : ∀ v, 1 ≤ v → v ≤ s.n → (fun th : Thread => decide (th.arrived = s.step + 1)) (getT s.thr v) = true := by
+        intro v h1 h2
+        have hv : isBar s v := ⟨h1, h2⟩
+        rcases hbar v hv with hfin | ⟨_, _, hav⟩
+        · have hpv := hi.pcs v hv
+          have hbv := hi.bnd v hv
+          simp [pcOk, hfin] at hpv
+          omega
+        · simp [hav]
+      have hge := countP_ge_of_all (p := fun th : Thread => decide (th.arrived = s.step + 1)) hlen hall
+      omega
+  intro t ht
+  by_cases ht0 : t = 0
+  · subst ht0
+    unfold mainOk at hmain
+    cases hp : (getT s.thr 0).pc <;> simp [hp] at hmain hr0 ⊢
+    rename_i i
+    have := hnone (i + 1) ⟨by omega, by omega⟩
+    rw [pcOf_eq, this] at hr0
+    simp at hr0
+  · exact hnone t ⟨by omega, by omega⟩
+
+open BarS in
+/-- when all barrier threads have finished, the action has run exactly `gens` times and `step_ = gens` -/
+theorem barS_actions_total {n gens : Nat} {y : Bool} (hn : 1 ≤ n) {s : BarS.State} (h : BarS.Reachable n gens y s)
+    (hfin : ∀ u, isBar s u → (getT s.thr u).pc = .finished) : s.actions = gens ∧ s.step = gens := by
+  have hi := reachable_inv hn h
+  have hp := reachable_params h
+  have hb : isBar s 1 := ⟨by omega, by rw [hp.1]; exact hn⟩
+  have h1 := hi.bnd 1 hb
+  have h2 := hi.pcs 1 hb
+  have h3 := actions_bounds hi
+  have h4 := h3.2.2 1 hb
+  simp [pcOk, hfin 1 hb] at h2
+  omega
+
+
+/-! Non-vacuity: three threads, two generations of `wait_yield()`, one concrete interleaving. -/
+def barSChoices : List (Nat × Nat) := 
+  [(0,0),(0,0),(1,0),(1,0),(1,0),(1,0),(1,0),(0,0),(2,0),(2,0),(2,0),(2,0),(2,0),(0,0),(3,0),(3,0),(3,0),(3,0),(3,0),(3,0),(3,0),(3,0),(3,0),(2,0),(2,0),(2,0),(2,0),(2,0),(1,0),(1,0),(1,0),(1,0),(1,0),(3,0),(2,0),(0,0),(0,0),(0,0)]
+
+example : (BarS.runChoices (BarS.init 3 2 true) barSChoices).map
+    (fun (s : BarS.State) => (s.actions, s.step, s.waiting, s.thr.map (fun (th : BarS.Thread) => (th.arrived, th.left))))
+    = some (2, 2, 0, [(0, 0), (2, 2), (2, 2), (2, 2)]) := by decide
+
+example : (BarS.runChoices (BarS.init 3 2 true) barSChoices).map
+    (fun (s : BarS.State) => s.thr.all (fun (th : BarS.Thread) => th.pc == BarS.Pc.finished)) = some true := by decide
 
 end TlxVerif.C11
